@@ -9,7 +9,8 @@ from harness import lib_queue_backends as lqb
 
 PID = 'C05'
 TITLE = 'Failures and stop requests propagate through queues without hanging'
-LEAN_MODULES = ['MlModel.Properties.C05', 'MlModel.Properties.C05Live', 'MlModel.Properties.C05Observe', 'MlModel.Witness.C05']
+LEAN_MODULES = ['MlModel.Properties.C05', 'MlModel.Properties.C05Live', 'MlModel.Properties.C05Observe', 'MlModel.Properties.C05Backend',
+                'MlModel.Witness.C05']
 TRUSTED = list(__import__('harness.props.c04', fromlist=['TRUSTED']).TRUSTED)
 ASSUMPTIONS = ['a timeout is modelled as a scheduler choice available whenever a thread is parked with a timeout configured']
 RULE8 = (' Round 8 (observers after the fact, non-Exception faults): every failing item raises ValueError or, p=0.35, one of '
